@@ -4,6 +4,9 @@ func init() {
 	checks["MISCTEST"] = func(r *Report, p *Program, tier string) {
 		RuleBCD(r, p)
 		RuleAddr(r, p)
+		RuleK10(r, p)
+		RuleW26(r, p)
+		RuleJSON(r, p)
 	}
 	checks["ORDERTEST"] = func(r *Report, p *Program, tier string) {
 		RuleOrder(r, p, "thorough")
